@@ -49,7 +49,10 @@ def main():
             target = cands[0].lstrip("./") if cands else pkgs[0]
             for d in demos:
                 shutil.copy(os.path.join(src, d), os.path.join(wt, target, d))
-            democmd = "go test -vet=off -count=1 -run 'Demo|demo' ./%s/" % target
+            tags = ""
+            if any("go:build verif" in open(os.path.join(src, d)).read() for d in demos):
+                tags = "-tags verif "   # the demonstration forces an interleaving through the inert verif yield points
+            democmd = "go test -vet=off -count=1 %s-run 'Demo|demo' ./%s/" % (tags, target)
         elif mains:
             os.makedirs(os.path.join(wt, "zz_demo"), exist_ok=True)
             for d in mains:
